@@ -90,7 +90,7 @@ class CloneGen:
         for i, fr in enumerate(frames):
             kids = [g["name"] for g in frames if g["over"] == fr["name"]]
             if kids:
-                fr["under"] = kids[0]
+                fr["under"] = r.choice(kids)    # primary-under overrides (the `under` verb) must survive cloning
         first = frames[0]
         # private state: initialised on entry of the first frame's outline top (the first frame itself is a root)
         first["enter"].insert(0, {"k": "put", "share": rel("count", "framer"), "val": 0})
